@@ -13,7 +13,8 @@ CONSTANTS MaxHist, NConc, What     \* What = "history" | "conc"
 VARIABLES hist, pr, hph
 hvars == <<hist, pr, hph>>
 
-K == [DefaultCfg EXCEPT !.protos = <<"grpc">>, !.codecs = <<"proto">>, !.comps = <<"gzip">>, !.L = 2048]
+\* (aux: the Transcoder also serves verif.v1.Aux, a service whose type resolver resolves nothing)
+K == [DefaultCfg EXCEPT !.protos = <<"grpc">>, !.codecs = <<"proto">>, !.comps = <<"gzip">>, !.L = 2048, !.aux = TRUE]
 Base == [cfg |-> K, cl |-> DefaultCl, hd |-> [DefaultHd EXCEPT !.frames = <<Frame(9, FALSE)>>, !.errat = 1]]
 
 OkUnary == [Base EXCEPT !.cl.form = "connect_post", !.cl.major = 1, !.cl.codec = "json", !.cl.method = "Post", !.cl.frames = <<Frame(1, FALSE)>>]
@@ -56,13 +57,17 @@ GetGzip == [Base EXCEPT !.cl.form = "connect_get", !.cl.major = 1, !.cl.codec = 
                         !.cl.method = "Query", !.cl.frames = <<Frame(1, TRUE)>>]
 \* the backend's (binary) reply cannot be written in the client's codec (a timestamp out of JSON's range)
 BadTimestamp == [msgs |-> [x \in {"9"} |-> "badts"]] @@ OkUnary
+\* a JSON call to the OTHER service of the Transcoder (its codecs are built with a resolver that knows no type),
+\* and a probe whose messages need the resolver (well-known types inside an Any, converted JSON <-> binary)
+AuxJson == [msgs |-> [x \in {"1", "9"} |-> "wkt"]] @@ [OkUnary EXCEPT !.cl.path = "/verif.v1.Aux/Post"]
+OkAny == [msgs |-> [x \in {"1", "9"} |-> "wkt"]] @@ OkUnary
 BackendPanic == [OkUnary EXCEPT !.hd.exit = "panic"]
 BackendError == [OkStreamGzip EXCEPT !.hd.end.code = 8, !.hd.errat = 0]
 BigResponse == [msgs |-> [x \in {"9"} |-> "size:5000"]] @@ OkUnary
 
 Kinds == {OkUnary, OkStreamGzip, RejectCodec, CutMid, Oversize, OversizeMeasure, CutMeasure, GzCorrupt, NotGzip, Undecodable,
-          BackendPanic, BackendError, BigResponse, CloseRace, DuplexFault, DuplexFaultJson, RespUndecodable, GetGzip, BadTimestamp}
-Probes == {OkUnary, OkStreamGzip, OkRest, OkServerStream, GetGzip}
+          BackendPanic, BackendError, BigResponse, CloseRace, DuplexFault, DuplexFaultJson, RespUndecodable, GetGzip, BadTimestamp, AuxJson}
+Probes == {OkUnary, OkStreamGzip, OkRest, OkServerStream, GetGzip, OkAny}
 
 HInit == hist = <<>> /\ pr = OkUnary /\ hph = "grow" /\ Init
 Grow == /\ hph = "grow" /\ Len(hist) < (IF What = "history" THEN MaxHist ELSE NConc)
